@@ -1176,6 +1176,78 @@ def contains_expr(root, src):
     return False
 
 
+_CODE_INDEX = {}
+
+
+def _code_index(root):
+    """canonical forms of every sub-expression and of every simple statement under `root` (computed once per node)"""
+    hit = _CODE_INDEX.get(id(root))
+    if hit is not None and hit[0] is root:
+        return hit[1], hit[2]
+    exprs, stmts_ = set(), set()
+    for n in ast.walk(root):
+        if isinstance(n, ast.expr):
+            try:
+                exprs.add(repr(canon(n)))
+            except Exception:
+                pass
+        elif isinstance(n, ast.stmt):
+            k = _stmt_key(n)
+            if k is not None:
+                stmts_.add(k)
+    if len(_CODE_INDEX) > 400:
+        _CODE_INDEX.clear()
+    _CODE_INDEX[id(root)] = (root, exprs, stmts_)
+    return exprs, stmts_
+
+
+def _loaded(t):
+    t = copy.deepcopy(t)
+    for n in ast.walk(t):
+        if hasattr(n, "ctx"):
+            n.ctx = ast.Load()
+    return t
+
+
+def _stmt_key(st):
+    """canonical identity of a simple statement (None for compound statements and what canon cannot express)"""
+    try:
+        if isinstance(st, ast.Assign) and len(st.targets) == 1:
+            return repr(("=", canon(_loaded(st.targets[0])), canon(st.value)))
+        if isinstance(st, ast.AugAssign):
+            return repr(("aug", type(st.op).__name__, bool(getattr(st, "_rebind", False)), canon(_loaded(st.target)), canon(st.value)))
+        if isinstance(st, ast.Return):
+            return repr(("return", canon(st.value) if st.value is not None else None))
+        if isinstance(st, ast.Expr):
+            return repr(("expr", canon(st.value)))
+        if isinstance(st, ast.Raise):
+            return repr(("raise", type(st.exc).__name__ if st.exc is not None else None,
+                         (call_name(st.exc) if isinstance(st.exc, ast.Call) else None)))
+    except Exception:
+        return None
+    return None
+
+
+def has_code(root, text):
+    """does `root` contain the expression / simple statement `text`, modulo canon() (operand order of commutative operators,
+    comparison orientation, spelling of constants, `x = x + e` as written) - the replacement for `"text" in ast.unparse(root)`"""
+    exprs, stmts_ = _code_index(root)
+    try:
+        e = ast.parse(text.strip(), mode="eval").body
+        return repr(canon(e)) in exprs
+    except SyntaxError:
+        pass
+    mod = ast.parse(text.strip())
+    if len(mod.body) != 1:
+        raise ValueError(f"has_code: one expression or one simple statement expected: {text!r}")
+    from .normalize import _Aug
+    _Aug().visit(mod)
+    k = _stmt_key(mod.body[0])
+    if k is None:
+        raise ValueError(f"has_code: not a simple statement: {text!r}")
+    return k in stmts_
+
+
 def summarize_block(stmts_, skip=lambda st: False, env0=None):
     """final bindings of a statement list treated as straight-line code (e.g. one loop iteration); `skip` drops statements"""
     body = [copy.deepcopy(st) for st in stmts_ if not skip(st)] or [ast.Pass()]
